@@ -175,8 +175,10 @@ impl Default for Mock {
 impl Mock {
     fn tick(&mut self) {
         self.calls += 1;
-        if self.calls > self.max_calls {
-            panic!("WATCHDOG: more than {} transport calls in one case", self.max_calls);
+        // every productive call moves at least one byte: anything far beyond that is a spin
+        let allowed = self.max_calls + 4 * (self.inbound.len() as u64 + self.all_wire.len() as u64);
+        if self.calls > allowed {
+            panic!("WATCHDOG: more than {} transport calls in one case", allowed);
         }
     }
     pub fn set_script(&mut self, line: &str) {
